@@ -172,3 +172,17 @@ m("c19-rounding-mode-saved-and-restored", "C19", 0, [("src/gm2_mf.cpp", "#includ
    "   double lambda_qcd = 0.217; // Nf = 5, PDG\n",
    "   double lambda_qcd = 0.217; // Nf = 5, PDG\n   struct Round_guard { int old; Round_guard() : old(std::fegetround()) { std::fesetround(FE_TONEAREST); } ~Round_guard() { std::fesetround(old); } } round_guard;\n")],
   "RAII guard forcing round-to-nearest during the solve and restoring the caller's mode: property holds")
+
+# ----------------------------------------------------------------------------- C19: shared state whose accesses all happen inside libstdc++.so
+m("c19-static-ostringstream-in-get_problems", "C19", 1, [("src/MSSMNoFV/MSSMNoFV_onshell_problems.cpp",
+   "std::string MSSMNoFV_onshell_problems::get_problems() const\n{\n   std::ostringstream ostr;\n   print_problems(ostr);\n   return ostr.str();\n}",
+   "std::string MSSMNoFV_onshell_problems::get_problems() const\n{\n   // constructing a stream is expensive (locale initialisation): reuse one\n   static std::ostringstream ostr;\n   ostr.str(std::string());\n   ostr.clear();\n   print_problems(ostr);\n   return ostr.str();\n}"),
+  ("src/MSSMNoFV/MSSMNoFV_onshell_problems.cpp",
+   "std::string MSSMNoFV_onshell_problems::get_warnings() const\n{\n   std::ostringstream ostr;\n   print_warnings(ostr);\n   return ostr.str();\n}",
+   "std::string MSSMNoFV_onshell_problems::get_warnings() const\n{\n   static std::ostringstream ostr;\n   ostr.str(std::string());\n   ostr.clear();\n   print_warnings(ostr);\n   return ostr.str();\n}")],
+  "function-local static std::ostringstream reused by all callers: every access to the shared object happens inside libstdc++.so (uninstrumented)")
+
+m("c19-static-string-scratch-in-thdm-problems", "C19", 1, [("src/THDM/THDM_problems.cpp",
+   "std::string THDM_problems::get_problems() const\n{\n   std::ostringstream ostr;\n   print_problems(ostr);\n   return ostr.str();\n}",
+   "std::string THDM_problems::get_problems() const\n{\n   static std::string buf; // keeps its capacity between calls\n   std::ostringstream ostr;\n   print_problems(ostr);\n   buf = ostr.str();\n   return buf;\n}")],
+  "function-local static std::string assigned and copied by all callers (accesses inside libstdc++.so)")
